@@ -72,6 +72,10 @@ class FreeDom(ValueDomain):
                     return fin(self.sym(key))
             if x.get("k") == "cast":
                 return self.eval(x["e"], st)
+            if x.get("k") == "un" and x.get("op") == "&":
+                t = strip(x["e"])
+                if isinstance(t, dict) and t.get("k") == "ref" and t.get("dk") == "global":
+                    return fin(self.sym(("addr", t["n"])))       # the address of a global object: a constant
         return ValueDomain.eval(self, n, st)
 
     def refine(self, c, st, truth):
